@@ -381,7 +381,24 @@ class Ctx:
                         "axioms reported by Print Assumptions: " + (", ".join(info["axioms"]) or "none (all closed under the global context)"),
                         "tools/extract (Go AST -> Gallina tables)", "Go harness driver + projection to observables",
                         "cases_*.v writer (lib/vlib.py, checks/*.py)"]
+        if self.tier == "thorough":
+            self.coqchk()
         return not self.broken_list
+
+    def coqchk(self):
+        """thorough tier: re-check the compiled property file and everything it depends on with the
+        independent checker and record the axiom summary it prints"""
+        with Lock("coq"):
+            rc, o, e = sh(["coqchk", "-silent", "-o", "-Q", "theories", "BX", "-Q", "gen", "BXGen",
+                           "BX.Properties." + self.pid], cwd=COQ, timeout=6 * 3600)
+        txt = o + e
+        m = re.search(r"CONTEXT SUMMARY.*", txt, re.S)
+        summary = re.sub(r"\s+", " ", m.group(0)) if m else txt[-800:]
+        self.extra["coqchk"] = dict(rc=rc, summary=summary[:3000])
+        if rc != 0:
+            self.broken("coqchk:Properties/%s" % self.pid, txt[-1500:])
+        else:
+            self.trusted.append("coqchk -o (independent checker) summary: " + summary[:600])
 
     broken_list = None
 
